@@ -73,30 +73,29 @@ func genCmds(rt *rapid.T, restarts bool) simCase {
 
 const stallMsg = "But no new received or acked chunks in any connection or increased generation"
 
-func runSim(c simCase) (out *udp.VerifOutcome, stalled bool) {
-	defer func() {
-		if r := recover(); r != nil {
-			if s, ok := r.(string); ok && s == stallMsg && c.Restarts {
-				stalled = true
-				return
-			}
-			panic(r) // every other simulator panic is a violation (reported by pbt.Safe)
-		}
-	}()
-	return udp.VerifRunSimulator(c.Cmds, c.Restarts), false
-}
-
 func check(c simCase) pbt.Result {
-	out, stalled := runSim(c)
-	if stalled {
-		// F22: in restarts mode the simulator's settle loop can report "no progress"
-		if pbt.Known("F22") && !pbt.Replaying() {
-			return pbt.Result{Excluded: "F22", Classes: []string{"restarts"}}
-		}
-		return pbt.Fail("simulator (restarts mode) stalled: %s", stallMsg)
-	}
+	out := udp.VerifRunSimulator(c.Cmds, c.Restarts)
 	if out == nil {
 		return pbt.Fail("simulator returned without reaching its end")
+	}
+	stalled := false
+	if out.Panic != nil {
+		if s, ok := out.Panic.(string); ok && s == stallMsg && c.Restarts {
+			// With restarts the settle loop's liveness heuristic is not an oracle (delivery is not promised and the
+			// loop never fires regenerate timers); the memory clauses below are still checked on the stalled state.
+			stalled = true
+		} else {
+			return pbt.Fail("simulator invariant violated: %v", out.Panic) // every other simulator panic is a violation
+		}
+	}
+	// memory balance: what a transport accounts as acquired is exactly what its connections still hold
+	for i, a := range out.AcquiredMemory {
+		if a != out.HeldByConns[i] {
+			return pbt.Fail("transport %d accounts %d bytes of acquired incoming memory but its connections hold %d (leak or double release)", i, a, out.HeldByConns[i])
+		}
+	}
+	if stalled {
+		return pbt.Result{Classes: []string{"restarts", "restart-stall"}}
 	}
 	msgs, multi, lossOrDup := 0, 0, strings.ContainsAny(c.Pretty, "dl")
 	for m, n := range out.Sent {
